@@ -165,7 +165,7 @@ func (w *world) registered(name string) [][]byte {
 	}
 	own := keys.Pub(u.KeyKind, userKeyLabel(name)).Marshal()
 	switch w.dirState(name) {
-	case "pub", "pub_commented", "bare", "both_same":
+	case "pub", "pub_commented", "bare", "both_same", "pub_symlink", "pub_dangling_bare", "pub_loop_bare":
 		return [][]byte{own}
 	case "both_diff":
 		return [][]byte{own, keys.Pub(u.KeyKind, altKeyLabel(name)).Marshal()}
@@ -247,6 +247,31 @@ func (w *world) setupDir() error {
 			if err = os.WriteFile(pub, own, 0o644); err == nil {
 				err = os.WriteFile(bare, authorizedLine(u.KeyKind, altKeyLabel(u.Name), ""), 0o644)
 			}
+		case "pub_symlink":
+			// the registered key lives elsewhere, the entry is a symbolic link to it
+			store := filepath.Join(w.dir, "store-"+fmt.Sprint(len(u.Name)))
+			if err = os.MkdirAll(store, 0o755); err == nil {
+				target := filepath.Join(store, "key.pub")
+				if err = os.WriteFile(target, own, 0o644); err == nil {
+					err = os.Symlink(target, pub)
+				}
+			}
+		case "pub_dangling":
+			// file-system trouble: the entry is a symbolic link whose target is gone
+			err = os.Symlink(filepath.Join(w.dir, "gone", "nowhere.pub"), pub)
+		case "pub_dangling_bare":
+			if err = os.Symlink(filepath.Join(w.dir, "gone", "nowhere.pub"), pub); err == nil {
+				err = os.WriteFile(bare, own, 0o644)
+			}
+		case "pub_loop":
+			// ... or a link that points at itself (every access fails with "too many levels of symbolic links")
+			err = os.Symlink(pub, pub)
+		case "pub_loop_bare":
+			if err = os.Symlink(pub, pub); err == nil {
+				err = os.WriteFile(bare, own, 0o644)
+			}
+		case "bare_loop":
+			err = os.Symlink(bare, bare)
 		case "unparsable":
 			err = os.WriteFile(pub, []byte("ssh-ed25519 this-is-not-base64!! nobody\n"), 0o644)
 		case "empty":
